@@ -144,9 +144,11 @@ def applyOpts (o : Opts) (r : Rec) : Rec :=
 
 /-- Storage kinds the harness runs: the in-memory hashmap (hands out its own record objects), bbolt (serialises),
     a harness-owned injected storage whose `Put` returns a normalised copy (like `config`'s), and the
-    runtime registry with its value providers (no `Delete`; keys no provider is responsible for are unmanaged). -/
+    runtime registry with its value providers (no `Delete`; keys no provider is responsible for are unmanaged),
+    and `pushonly`: an injected database built directly on `storage.InjectBase` — it keeps the base's
+    `ReadOnly() == true` (accepts no Put), serves nothing, and only pushes updates through `Controller.PushUpdate`. -/
 inductive Kind where
-  | hashmap | bbolt | inj | reg
+  | hashmap | bbolt | inj | reg | pushonly
 deriving DecidableEq, Repr
 
 structure Cfg where
@@ -155,6 +157,10 @@ structure Cfg where
 deriving DecidableEq, Repr
 
 def Cfg.aliasing (c : Cfg) : Bool := c.kind == .hashmap
+
+/-- `Controller.ReadOnly()` = the storage's answer: `storage.InjectBase`'s default is true; the `config` and `runtime`
+    storages and the harness' `inj` storage override it, hashmap and bbolt say false. -/
+def Cfg.readOnly (c : Cfg) : Bool := c.kind == .pushonly
 
 /-- A value provider registered on a `runtime.Registry`: identity, the key or (ending in `/`) key prefix it was
     registered for, and — ghost — whether the registry had already been injected as a database when `Register` made
@@ -483,6 +489,33 @@ def run (st : St) : List Op → St × List Out
     (st2, o :: os)
 
 def St.init (cfg : Cfg) : St := { cfg := cfg }
+
+/-! ## Databases whose storage is read-only
+
+`step` is the interface / controller on a writable database. Every write path of `Interface` (`Put`, `PutNew`,
+`PutMany`, `Delete`, `MakeSecret`, …: `getRecord` / `getMeta` with `mustBeWriteable`, or the explicit check) answers
+`ErrReadOnly` before a hook runs or the storage is touched when `Controller.ReadOnly()`; reads, subscriptions and
+hooks do not look at it. `Controller.PushUpdate` is the one entry that leads to `notifySubscribers` on such a
+database; its guards are regenerated from the source (`PB.Gen.Subs.pushUpdateSkipsReadOnly`). -/
+
+/-- Is a pushed update dropped by `Controller.PushUpdate`'s guards (shutdown is not modelled)? -/
+def pushDropped (cfg : Cfg) : Bool := PB.Gen.Subs.pushUpdateSkipsReadOnly && cfg.readOnly
+
+/-- One operation on a database whose storage may be read-only. -/
+def dstep (st : St) : Op → St × Out
+  | .push r => if pushDropped st.cfg then (st, {}) else step st (.push r)
+  | .put o r isNew => if st.cfg.readOnly then (st, { res := .error .readonly }) else step st (.put o r isNew)
+  | .modify o key m => if st.cfg.readOnly then (st, { res := .error .readonly }) else step st (.modify o key m)
+  | .putMany o rs =>
+    if st.cfg.readOnly && o.all then (st, { res := .error .readonly }) else step st (.putMany o rs)
+  | op => step st op
+
+def drun (st : St) : List Op → St × List Out
+  | [] => (st, [])
+  | op :: ops =>
+    let (st1, o) := dstep st op
+    let (st2, os) := drun st1 ops
+    (st2, o :: os)
 
 /-! ## The runtime registry in front of its database
 
